@@ -228,12 +228,12 @@ func packDomainName(s string, msg []byte, off int, compression compressionMap, c
 	// Emit sequence of counted strings, chopping at dots.
 	var (
 		begin     int
+		nameLen   int
 		compBegin int
 		compOff   int
 		bs        []byte
 		wasDot    bool
 	)
-loop:
 	for i := 0; i < ls; i++ {
 		var c byte
 		if bs == nil {
@@ -282,6 +282,21 @@ loop:
 				return len(msg), ErrRdata
 			}
 
+			// The complete name, including the labels that end up being
+			// replaced by a compression pointer and the terminating root
+			// label, is limited to maxDomainNameWireOctets octets.
+			nameLen += 1 + labelLen
+			if nameLen >= maxDomainNameWireOctets {
+				return len(msg), ErrLongDomain
+			}
+
+			if pointer != -1 {
+				// The rest of the name is covered by the compression
+				// pointer, it only needs to be measured.
+				begin = i + 1
+				continue
+			}
+
 			// off can already (we're in a loop) be bigger than len(msg)
 			// this happens when a name isn't fully qualified
 			if off+1+labelLen > len(msg) {
@@ -301,7 +316,8 @@ loop:
 					// If compress is true, we're allowed to compress this dname
 					if compress {
 						pointer = p // Where to point to
-						break loop
+						begin = i + 1
+						continue
 					}
 				} else if off < maxCompressionOffset {
 					// Only offsets smaller than maxCompressionOffset can be used.
